@@ -151,8 +151,32 @@ func (m *tkMod) op(e *lib.Env, st Step) (string, lib.Outcome) {
 	panic("token: unknown op " + st.K)
 }
 
-func genTK(r *lib.Rand, h *History) {
+func tkSweep() []func(*TKParams) {
+	var fs []func(*TKParams)
+	for _, v := range sweepRates() {
+		v := v
+		fs = append(fs, func(p *TKParams) { p.Tax = v }, func(p *TKParams) { p.Ratio = v })
+	}
+	for _, v := range sweepAmounts() {
+		v := v
+		fs = append(fs, func(p *TKParams) { p.Fee.A = v })
+	}
+	for _, d := range []int{0, 2, 3} {
+		d := d
+		fs = append(fs, func(p *TKParams) { p.Fee.D = d })
+	}
+	return fs
+}
+
+func genTK(r *lib.Rand, h *History, i int) {
 	p := TKParams{Tax: sp("400000000000000000"), Fee: Coin{1, sp("60000")}, Ratio: sp("100000000000000000"), Erc20: true, Beacon: 0}
+	if sw := tkSweep(); i < len(sw) {
+		sw[i](&p)
+		h.TK = &p
+		h.Via = sweepVia(i)
+		h.Steps = []Step{{"issue", []string{"0"}}, {"mint", []string{"1000"}}, {"issue", []string{fmt.Sprint(1 + r.Intn(5))}}, {"mint", []string{"5"}}}
+		return
+	}
 	nvar := 1 + r.Weighted(6, 2, 1)
 	if r.Chance(1, 10) {
 		nvar = 0
